@@ -7,6 +7,11 @@ such paths (or raise Bad7zFile); every file-system call of the 7z reader and of
 the archive extractor gets the obligation that its path argument is INSIDE the
 private temporary directory; ZIP/TAR paths have no file-system call at all
 (policy, from the AST); skip rules dominate every member dispatch.
+
+Round 5: the containment test may be written with os.path.commonprefix / commonpath / relpath (assumed models below; commonprefix is a
+character prefix and does not prove INSIDE); a file-system call in a symbolically executed function whose path the AST policy cannot follow
+is decided by its own fs-confined VC (the policy then only asks that every call site passes a confined directory); a second BOUNDED native
+scope pins the temp dir name (`../<temp dir name>/x` re-enters the private directory: recorded finding, proposed_fixes/C09_2_climbing_names.diff).
 """
 import os
 
@@ -164,6 +169,11 @@ if not any(getattr(f, "__name__", "") == "_over" and f.__module__ == __name__ fo
     _solve.SAT_UNTRUSTED.append(_over)
 
 
+# primitives whose every call is a confinement VC of its own in a symbolically executed function (anything else there is havoc -> `unknown`)
+SYMBOLIC_FS = ("open", "os.path.exists", "os.path.lexists", "os.path.isfile", "os.path.isdir", "os.path.getsize", "os.unlink", "os.rmdir",
+               "os.makedirs", "os.remove", "os.mkdir")
+
+
 def install(reg):
     reg.ext_models["os.path.abspath"] = m_abspath
     reg.ext_models["os.path.join"] = m_join
@@ -176,11 +186,9 @@ def install(reg):
                                                                              else ex.havoc_call(st, "os.path.normpath", args, node))
     for k, v in (("os.sep", "/"), ("os.path.sep", "/"), ("os.pardir", ".."), ("os.path.pardir", ".."), ("os.curdir", "."), ("os.path.curdir", ".")):
         reg.ext_models[("const", k)] = VStr(v)            # POSIX (the replayer runs the real functions on this platform)
-    for k in ("os.path.exists", "os.path.lexists", "os.path.isfile", "os.path.isdir", "os.path.getsize", "os.unlink", "os.rmdir"):
-        reg.ext_models[k] = fs_call(k)
-    reg.ext_models["os.makedirs"] = fs_call("os.makedirs")
-    reg.ext_models["os.remove"] = fs_call("os.remove")
-    reg.ext_models["os.mkdir"] = fs_call("os.mkdir")
+    for k in SYMBOLIC_FS:
+        if k != "open":                                   # the builtin: FsExecutor.b_open
+            reg.ext_models[k] = fs_call(k)
     reg.ext_models[("with", "File")] = with_file
 
 
@@ -309,14 +317,25 @@ def policy(repo, tier):
     obls.append(_obl("C09/package/policy#file-system-primitives-are-recognised", not conf_err and not odd and len(sites) >= 4,
                      conf_err or "; ".join(odd) or f"{len(sites)} file-system call sites, all path-determined primitives", "archive_extractor.py, sevenzip.py",
                      first=("7z unix symlink", "tar links")))
+    sym_fns = {}
+    try:
+        sym_fns[(ARCH, "_process_7z_files_sequential")] = real_params(ARCH, "_process_7z_files_sequential", ("files_to_process", "temp_dir", "archive_path"))[1]
+    except Exception:  # noqa
+        pass
     # P6: every path that reaches such a primitive is the private base, a _safe_join(base, ...) result, its dirname, or a parameter
     #     bound to such a value at every call site (fixpoint over the helper functions of both modules)
     for rel, short, want in ((SEVEN, "sevenzip.py", ("open", "os.makedirs")), (ARCH, "archive_extractor.py", ("tempfile.TemporaryDirectory",))):
         mine = [s_ for s_ in sites if s_[0] == rel]
-        bad = [d for (_r, _q, _c, _n, v, d) in mine if v == "unconfined"]
+        # a site the path analysis cannot follow (a containment test written in line, say) is not lost when the function is executed
+        # symbolically with the private directory bound to a parameter: the call has its own `fs-confined` VC there, and what is left for
+        # the policy is that every call site passes a confined value for that parameter
+        deferred = [s_ for s_ in mine if s_[4] == "unconfined" and s_[3] in SYMBOLIC_FS and (rel, s_[1]) in sym_fns
+                    and conf is not None and conf.param_conf.get(((rel, s_[1]), sym_fns[(rel, s_[1])]))]
+        bad = [d for s_ in mine for (_r, _q, _c, _n, v, d) in [s_] if v == "unconfined" and not any(s_ is x for x in deferred)]
         seen = {n for (_r, _q, _c, n, _v, _d) in mine}
         missing = [w for w in want if w not in seen and not (w == "tempfile.TemporaryDirectory" and "tempfile.mkdtemp" in seen)]
-        detail = conf_err or "; ".join(bad) or ("; ".join(f"no {w} call found (vacuity)" for w in missing)) or f"{len(mine)} call sites, every path confined"
+        detail = conf_err or "; ".join(bad) or ("; ".join(f"no {w} call found (vacuity)" for w in missing)) or (
+            f"{len(mine)} call sites, every path confined" + (f" ({len(deferred)} of them by the fs-confined VCs of the symbolically executed function)" if deferred else ""))
         obls.append(_obl(f"C09/{short}/policy#paths-reaching-the-file-system-are-confined", not conf_err and not bad and not missing, detail, rel,
                          first=("7z member with a stream", "7z zero-length", "7z listed member", "7z directory")))
         for q in sorted({q for (_r, q, _c, _n, _v, _d) in mine if q in mods[rel].functions}):
